@@ -43,12 +43,12 @@ Proof. exact eval_assign_inf. Qed.
 Print Assumptions C08_assign_infallible.
 
 Example C08_example :
-  let s := mkState [] (VObj [(hx "61", VBytes (hx "78"))]) (VObj []) in
-  run F_inst binop_inst
+  let s := st0 [] (VObj [(hx "61", VBytes (hx "78"))]) (VObj []) in
+  run_core
     [EAssignInf (TVar (hx "6f") []) (TVar (hx "65") []) (ECall (nm "int") [EQExt PEvent [SField (hx "61")]]) (VInt 0);
      EAssign (TVar (hx "72") [])
        (EOp OErr (ECall (nm "string") [EQExt PEvent [SField (hx "61")]])
                  (EAssign (TExt PEvent [SField (hx "62")]) (ELit (VInt 1))))] s
   = (Success (VBytes (hx "78")),
-     mkState [(hx "72", VBytes (hx "78")); (hx "65", ERRMSG); (hx "6f", VInt 0)] (VObj [(hx "61", VBytes (hx "78"))]) (VObj [])).
+     [(hx "72", VBytes (hx "78")); (hx "65", ERRMSG); (hx "6f", VInt 0)], VObj [(hx "61", VBytes (hx "78"))], VObj []).
 Proof. vm_compute. reflexivity. Qed.
